@@ -11,6 +11,7 @@ use std::collections::BTreeSet;
 pub fn client_profile() -> CProfile {
     CProfile {
         w_step: 30,
+        w_stepcoop: 3,
         w_drain: 6,
         w_newcall: 24,
         w_reply: 10,
@@ -39,11 +40,21 @@ pub fn client_profile() -> CProfile {
 }
 
 pub fn check_client(sc: &CScenario) -> CaseResult {
+    check_client_opt(sc, None)
+}
+
+/// `close_budget`: poll the dispatch for the first time after the last handle is gone with only that
+/// many units of tokio's cooperative budget left (the end of a long poll under load), so that one of
+/// its queues answers Pending although it still holds items.
+pub fn check_client_opt(sc: &CScenario, close_budget: Option<u8>) -> CaseResult {
     let mut ops = sc.ops.clone();
     // shutdown: abandon whatever is left, drop every handle, (transport may still be blocked), then make it writable
     ops.push(COp::DropAllCalls);
     ops.push(COp::DropAllHandles);
-    ops.push(COp::Step { sel: 0 });
+    match close_budget {
+        Some(b) => ops.push(COp::StepCoop { sel: 0, budget: b }),
+        None => ops.push(COp::Step { sel: 0 }),
+    }
     ops.push(COp::Budget { n: 255 });
     ops.push(COp::Drain);
     let run = run_client(&sc.cfg, &ops);
